@@ -32,7 +32,7 @@ import (
 // they see).  Used by C15 (policy matrix), C13 (direction), C16 (namespace access, end-to-end subset),
 // C07 (LCM parameters of the assembled servers).
 //
-//	SETUP transport=tcp|mux acl=none|present methods=a,b|- namespaces=x,y|- nsmap=l1:r1,l2:r2|- mode=default|lcm local=4 remote=6
+//	SETUP transport=tcp|mux acl=none|present methods=a,b|- namespaces=x,y|- nsmap=l1:r1,l2:r2|- samap=lk:rk,...|- mode=default|lcm local=4 remote=6
 //	CALL side=remote|local method=/full/Method [bypass=0|1] [ns=name]
 //	METHODS                          list every method of both services (from the descriptors)
 //	  -> CALL code=<n> reached=0|1 seen=<side>:<namespace field value or -> resp=<namespace field of response or ->
@@ -125,6 +125,26 @@ func newVeFakeCluster(name string, count int32) *veFakeCluster {
 			if nf := fd.Message().Fields().ByName("name"); nf != nil {
 				info := out.Mutable(fd).Message()
 				info.Set(nf, protoreflect.ValueOfString(strings.TrimPrefix(veGetString(in, "namespace"), "-")))
+			}
+		}
+		// DescribeMutableStateResponse-like: search attributes of the execution, keys chosen by the caller ("sa:<k1>+<k2>" as workflow id)
+		if fd := md.Output().Fields().ByName("database_mutable_state"); fd != nil && fd.Message() != nil {
+			if ex := md.Input().Fields().ByName("execution"); ex != nil && ex.Message() != nil && in.Has(ex) {
+				wid := veGetString(in.Get(ex).Message(), "workflow_id")
+				if strings.HasPrefix(wid, "sa:") {
+					ms := out.Mutable(fd).Message()
+					if ei := fd.Message().Fields().ByName("execution_info"); ei != nil && ei.Message() != nil {
+						info := ms.Mutable(ei).Message()
+						if sf := ei.Message().Fields().ByName("search_attributes"); sf != nil && sf.IsMap() {
+							mp := info.Mutable(sf).Map()
+							for _, k := range strings.Split(strings.TrimPrefix(wid, "sa:"), "+") {
+								pv := mp.NewValue().Message()
+								pv.Set(pv.Descriptor().Fields().ByName("data"), protoreflect.ValueOfBytes([]byte("value-of-"+k)))
+								mp.Set(protoreflect.ValueOfString(k).MapKey(), protoreflect.ValueOfMessage(pv))
+							}
+						}
+					}
+				}
 			}
 		}
 		// ListNamespacesResponse-like: a fixed upstream list of namespaces
@@ -224,10 +244,20 @@ func veSetup(kv map[string]string) (*veEnv, error) {
 		scc = config.ShardCountConfig{Mode: config.ShardCountLCM, LocalShardCount: lc, RemoteShardCount: rc}
 	}
 	outboundAddr, inboundAddr := veFreePort(), veFreePort()
+	var samap config.SATranslationConfig
+	if l := list(kv["samap"]); len(l) > 0 {
+		m := config.SANamespaceMapping{Name: "ns", NamespaceId: "ns-id"}
+		for _, p := range l {
+			lr := strings.SplitN(p, ":", 2)
+			m.Mappings = append(m.Mappings, config.SAMapping{LocalName: lr[0], RemoteName: lr[1]})
+		}
+		samap.NamespaceMappings = []config.SANamespaceMapping{m}
+	}
 	cfg := config.ClusterConnConfig{
-		Name:                 "verif-under-test",
-		ACLPolicy:            policy,
-		NamespaceTranslation: nsmap,
+		Name:                       "verif-under-test",
+		ACLPolicy:                  policy,
+		NamespaceTranslation:       nsmap,
+		SearchAttributeTranslation: samap,
 		ShardCountConfig:     scc,
 		Local: config.ClusterDefinition{ConnectionType: config.ConnTypeTCP,
 			TcpServer: config.TCPTLSInfo{ConnectionString: outboundAddr},
@@ -403,6 +433,11 @@ func TestVerifE2E(t *testing.T) {
 						in.Set(fd, protoreflect.ValueOfString(ns))
 					}
 				}
+				if keys, ok := kv["sakeys"]; ok {
+					if ex := md.Input().Fields().ByName("execution"); ex != nil && ex.Message() != nil {
+						in.Mutable(ex).Message().Set(ex.Message().Fields().ByName("workflow_id"), protoreflect.ValueOfString("sa:"+keys))
+					}
+				}
 				if lst, ok := kv["list"]; ok {
 					if fd := md.Input().Fields().ByName("next_page_token"); fd != nil && fd.Kind() == protoreflect.BytesKind {
 						in.Set(fd, protoreflect.ValueOfBytes([]byte(lst)))
@@ -424,6 +459,20 @@ func TestVerifE2E(t *testing.T) {
 							}
 							resp = "list:" + strings.Join(names, ",")
 						}
+					}
+					if fd := md.Output().Fields().ByName("database_mutable_state"); fd != nil && fd.Message() != nil && out.Has(fd) {
+						var got []string
+						ms := out.Get(fd).Message()
+						if ei := fd.Message().Fields().ByName("execution_info"); ei != nil && ms.Has(ei) {
+							if sf := ei.Message().Fields().ByName("search_attributes"); sf != nil {
+								ms.Get(ei).Message().Get(sf).Map().Range(func(k protoreflect.MapKey, v protoreflect.Value) bool {
+									got = append(got, k.String()+"="+string(v.Message().Get(v.Message().Descriptor().Fields().ByName("data")).Bytes()))
+									return true
+								})
+							}
+						}
+						sort.Strings(got)
+						resp = "sa:" + strings.Join(got, ",")
 					}
 					if fd := md.Output().Fields().ByName("namespace_info"); fd != nil && fd.Message() != nil && out.Has(fd) {
 						resp = "info:" + veGetString(out.Get(fd).Message(), "name")
